@@ -69,9 +69,12 @@ const vbtUnknown = 99
 func vbtDigest(primary bool, slot uint64) types.Digest {
 	bd := types.NewBabeDigest()
 	var err error
-	if primary {
+	switch {
+	case primary:
 		err = bd.SetValue(types.BabePrimaryPreDigest{AuthorityIndex: 0, SlotNumber: slot})
-	} else {
+	case slot%2 == 0: // "not primary" is either kind of secondary claim
+		err = bd.SetValue(types.BabeSecondaryVRFPreDigest{AuthorityIndex: 0, SlotNumber: slot})
+	default:
 		err = bd.SetValue(types.BabeSecondaryPlainPreDigest{AuthorityIndex: 0, SlotNumber: slot})
 	}
 	if err != nil {
@@ -267,8 +270,11 @@ func TestVerifBlockTree(t *testing.T) {
 			// ---- the call ------------------------------------------------------------
 			pm := vTry(func() {
 				switch o.Op {
-				case "Add", "AddOrphan", "AddWrongNum":
+				case "Add", "AddOrphan", "AddWrongNum", "AddNoDigest":
 					hd := vbtHeader(w.h(o.P), o.N, o.B, o.Prim, o.Hr)
+					if o.Op == "AddNoDigest" {
+						hd = types.NewHeader(hd.ParentHash, hd.StateRoot, hd.ExtrinsicsRoot, hd.Number, types.NewDigest())
+					}
 					at := base.Add(time.Duration(o.Arr) * time.Second)
 					err := w.bt.AddBlock(hd, at)
 					res.Cmp()
@@ -284,6 +290,8 @@ func TestVerifBlockTree(t *testing.T) {
 						cls := "parent-not-in-tree"
 						if o.Op == "AddWrongNum" {
 							cls = "wrong-number"
+						} else if o.Op == "AddNoDigest" {
+							cls = "no-babe-pre-digest"
 						}
 						fail("C15", "err", "an error (block must be rejected)", "nil", "AddBlock/"+cls+"/accepted")
 						abandon = true
